@@ -3,7 +3,7 @@
    the adjoints (family-level theorems for C01); involutions/inverses for C08.
    All statements quantify over every ring, size and parameter value. *)
 From Coq Require Import ZArith QArith Qcanon.
-From PV Require Import Dict Vec Dot QcInst GaussQc Check IndexOps Conv InterpOps.
+From PV Require Import Dict Vec Dot QcInst GaussQc Check IndexOps Conv InterpOps ConvND BilinearOp.
 Close Scope Qc_scope. Close Scope Q_scope. Close Scope Z_scope. Open Scope nat_scope.
 (* literals for the Examples *)
 Definition ql (l : list Z) : list Qc := map qz l.
@@ -249,3 +249,75 @@ Theorem C01b_bilinear_adjoint : forall (R : CRing) n2 ts ls (wts wls x y : list 
   dotu R (bilin_code_fwd R n2 ts ls wts wls x) y = dotu R x (bilin_code_adj R (length x) n2 ts ls wts wls y).
 Proof. exact bilin_adjoint. Qed.
 Print Assumptions C01b_bilinear_adjoint.
+
+(* ---------------- Convolve2D / ConvolveND on a 2-D C-order array ---------------- *)
+(* per-axis zero-padding of the filter from (o1, o2) as coded + scipy 'same'
+   window gives y[i,j] = sum_{p,q} h[p,q] x[i-p+o1, j-q+o2] (zero outside):
+   every filter shape k1 x k2 (odd or even), every offset inside it, every n1 x n2 *)
+Theorem C07b_convolve2d_meets_spec : forall (R : CRing) (H : list (list R)) k2 o1 o2 n1 n2 (x : list R) i j,
+  wfm R k2 H -> o1 < length H -> o2 < k2 -> i < n1 -> j < n2 ->
+  nth (i * n2 + j) (conv2_model R H k2 o1 o2 n1 n2 x) (r0 R) = conv2_spec R H k2 o1 o2 n1 n2 i j x.
+Proof. exact conv2_meets_spec. Qed.
+Print Assumptions C07b_convolve2d_meets_spec.
+Example C07b_convolve2d_example :
+  conv2_model QcR [ql [1; 2]%Z; ql [3; 4]%Z] 2 1 0 2 3 (ql [1; 0; 0; 0; 0; 1]%Z) = ql [3; 4; 1; 0; 0; 3]%Z
+  /\ wfm QcR 2 [ql [1; 2]%Z; ql [3; 4]%Z].
+Proof. split; [vm_compute; reflexivity | repeat constructor]. Qed.
+(* correlation with the padded filter = 'same' convolution with conj(flip(h)): adjoint pair, all sizes *)
+Theorem C01b_convolve2d_adjoint : forall (S : StarRing) (H : list (list S)) k2 o1 o2 n1 n2 (x y : list S),
+  wfm S k2 H -> o1 < length H -> o2 < k2 -> length x = n1 * n2 -> length y = n1 * n2 ->
+  dot S (conv2_model S H k2 o1 o2 n1 n2 x) y = dot S x (conv2_adj_model S H k2 o1 o2 n1 n2 y).
+Proof. exact conv2_adjoint. Qed.
+Print Assumptions C01b_convolve2d_adjoint.
+Example C01b_convolve2d_adjoint_nonvacuous :
+  let H := [gl [(1, 2); (0, -1)]%Z; gl [(3, 0); (1, 1)]%Z; gl [(0, 1); (2, 0)]%Z] in
+  let x := gl [(1, 0); (2, 1); (0, 3); (1, 1)]%Z in let y := gl [(0, 1); (1, 1); (2, -1); (1, 0)]%Z in
+  dot GS (conv2_model GS H 2 2 0 2 2 x) y = dot GS x (conv2_adj_model GS H 2 2 0 2 2 y)
+  /\ dot GS (conv2_model GS H 2 2 0 2 2 x) y <> g0.
+Proof. split; [vm_compute; reflexivity | vm_compute; discriminate]. Qed.
+Theorem C01b_conv2_same_adjoint : forall (S : StarRing) (Hp : list (list S)) K2 n1 n2 (x y : list S),
+  wfm S K2 Hp -> length Hp mod 2 = 1 -> K2 mod 2 = 1 -> length x = n1 * n2 -> length y = n1 * n2 ->
+  dot S (conv2_same S n1 n2 x Hp) y = dot S x (conv2_same S n1 n2 y (rev2c S Hp)).
+Proof. exact conv2_same_adjoint. Qed.
+Print Assumptions C01b_conv2_same_adjoint.
+
+(* ---------------- Bilinear: documented four-term formula, batch axes ---------------- *)
+Theorem C07b_bilinear_meets_spec : forall (R : CRing) n2 ts ls (wts wls x : list R) i,
+  length ts = length ls -> length wts = length ls -> length wls = length ls -> i < length ls ->
+  nth i (bilin_code_fwd R n2 ts ls wts wls x) (r0 R) = bilinear_spec R n2 ts ls wts wls i x.
+Proof. exact bilin_meets_spec. Qed.
+Print Assumptions C07b_bilinear_meets_spec.
+Example C07b_bilinear_example :
+  bilin_code_fwd QcR 3 [0; 0] [1; 1] [q 1 2; q 1 4] [q 1 4; q 1 2] (ql [0; 8; 16; 0; 24; 32]%Z) = ql [18; 16]%Z
+  /\ bilin_code_adj QcR 6 3 [0; 0] [1; 1] [q 1 2; q 1 4] [q 1 4; q 1 2] (ql [8; 8]%Z) = ql [0; 6; 4; 0; 4; 2]%Z.
+Proof. split; vm_compute; reflexivity. Qed.
+Theorem C02b_bilinear_linear : forall (R : CRing) n2 ts ls (wts wls : list R),
+  length ts = length ls -> length wts = length ls -> length wls = length ls ->
+  Linear R (bilin_code_fwd R n2 ts ls wts wls).
+Proof. exact bilin_linear. Qed.
+Print Assumptions C02b_bilinear_linear.
+Theorem C07b_bilinear_batch_meets_spec : forall (R : CRing) n2 inner ts ls (wts wls x : list R) i k,
+  length ts = length ls -> length wts = length ls -> length wls = length ls -> i < length ls -> k < inner ->
+  nth (i * inner + k) (bilin_batch_fwd R n2 inner ts ls wts wls x) (r0 R) =
+  let t := nth i ts 0 in let l := nth i ls 0 in let wt := nth i wts (r0 R) in let wl := nth i wls (r0 R) in
+  radd R (radd R (radd R
+    (rmul R (rmul R (rsub R (r1 R) wt) (rsub R (r1 R) wl)) (x3 R n2 inner x t l k))
+    (rmul R (rmul R wt (rsub R (r1 R) wl)) (x3 R n2 inner x (S t) l k)))
+    (rmul R (rmul R (rsub R (r1 R) wt) wl) (x3 R n2 inner x t (S l) k)))
+    (rmul R (rmul R wt wl) (x3 R n2 inner x (S t) (S l) k)).
+Proof. exact bilin_batch_meets_spec. Qed.
+Print Assumptions C07b_bilinear_batch_meets_spec.
+(* four accumulating scatters (np.add.at) are the transpose of the four gathers:
+   every position list (positions sharing a cell included), every batch size *)
+Theorem C01b_bilinear_batch_adjoint : forall (R : CRing) n2 inner ts ls (wts wls x y : list R),
+  length ts = length ls -> length wts = length ls -> length wls = length ls -> length y = length ls * inner ->
+  dotu R (bilin_batch_fwd R n2 inner ts ls wts wls x) y = dotu R x (bilin_batch_adj R (length x) n2 inner ts ls wts wls y).
+Proof. exact bilin_batch_adjoint. Qed.
+Print Assumptions C01b_bilinear_batch_adjoint.
+(* separable kernel h = a (x) b: the 2-D operator is the 1-D Convolve1D model along the
+   rows (b, o2) followed by the 1-D model along every column (a, o1) *)
+Theorem C07b_convolve2d_separable : forall (R : CRing) (a b : list R) o1 o2 n1 n2 (x : list R) i j,
+  o1 < length a -> o2 < length b -> i < n1 -> j < n2 -> length x = n1 * n2 ->
+  nth (i * n2 + j) (conv2_model R (outer R a b) (length b) o1 o2 n1 n2 x) (r0 R) = rows_then_col R a b o1 o2 n1 n2 x i j.
+Proof. exact conv2_separable. Qed.
+Print Assumptions C07b_convolve2d_separable.
